@@ -73,14 +73,112 @@ def render(lst):
     return "\n".join(out) + "\n"
 
 
+# ---- spec/UseTree.tla: scenarios printed by TLC ------------------------------------------------
+NM = {1: "a", 2: "b", 3: "c"}
+AL = {0: "", 1: " as x", 2: " as y"}
+
+
+def ut_seg(s):
+    k = s["k"]
+    if k == "id":
+        return NM[s["n"]] + AL[s["a"]]
+    if k == "self":
+        return "self" + AL[s["a"]]
+    if k == "glob":
+        return "*"
+    if k == "list":
+        return "{" + ", ".join(ut_path(p) for p in s["l"]) + "}"
+    return k
+
+
+def ut_path(p):
+    return "::".join(ut_seg(s) for s in p)
+
+
+def ut_render(items):
+    return "".join(("pub " if it["vis"] == "pub" else "") + "use " + ut_path(it["path"]) + ";\n"
+                   for it in items)
+
+
+def ut_leaves(items):
+    """Leaves of UseTree.tla on the JSON form of model trees."""
+    out = set()
+
+    def walk(vis, path, prefix):
+        if not path:
+            return
+        last, pre = path[-1], prefix + path[:-1]
+        names = tuple(ut_seg(dict(x, a=0)) for x in pre)
+        if last["k"] == "list":
+            for q in last["l"]:
+                walk(vis, q, pre)
+        elif last["k"] == "self":
+            if pre:
+                out.add((vis, names, AL[last["a"]].strip()))
+        elif last["k"] == "glob":
+            out.add((vis, names, "*"))
+        else:
+            out.add((vis, names + (ut_seg(dict(last, a=0)),), AL[last["a"]].strip()))
+    for it in items:
+        walk(it["vis"], list(it["path"]), [])
+    return out
+
+
+def real_leaves(uses):
+    out = set()
+
+    def walk(vis, t, prefix):
+        p = prefix + list(t["path"])
+        if t["k"] == "nested":
+            for q in t["items"]:
+                walk(vis, q, p)
+        elif t["k"] == "glob":
+            out.add((vis, tuple(p), "*"))
+        elif t["k"] == "simple":
+            if len(p) > 1 and p[-1] == "self":
+                p = p[:-1]
+            elif p == ["self"]:
+                return
+            out.add((vis, tuple(p), ("as " + t["rename"]) if t["rename"] else ""))
+    for it in uses:
+        if it.get("use"):
+            walk("pub" if it["vis"] == "pub" else "priv", it["tree"], [])
+    return out
+
+
+def ut_scenarios(tier, seed):
+    res = core.tlc("UseTree", f"UseTree_{tier}.cfg", workers=8, timeout=3000)
+    if not res.ok:
+        raise ToolError(f"UseTree.tla: {res.violation}")
+    scs = core.printed_json(res, "UT")
+    if tier == "quick":
+        scs = [s for k, s in enumerate(scs)
+               if not s["ok"] or core.fnv(json.dumps(s["items"]).encode()) % 8 == seed % 8]
+    return scs, res.distinct
+
+
 def run(tier, seed, replay=None):
     v = Verdict("C10", tier, seed)
     rng = random.Random(seed)
     core.build(bins=False)
     lists = universe(rng, tier)
+    uts, ut_states = ut_scenarios(tier, seed)
+    ut_base = len(lists)
+    for s in uts:
+        lists.append(("UT", s))
     opts = option_vectors(tier)
     jobs, meta = [], []
     for i, lst in enumerate(lists):
+        if lst[0] == "UT":
+            sc_ = lst[1]
+            hp = core.fnv(json.dumps(sc_["items"]).encode())
+            oo = {"imports_granularity": sc_["gran"], "group_imports": "Preserve",
+                  "reorder_imports": True, "edition": "2018",
+                  "style_edition": "2015" if hp % 2 else "2024", "max_width": 100}
+            jobs.append({"id": len(jobs), "src": ut_render(sc_["items"]), "opts": oo,
+                         "want": ["uses", "out"]})
+            meta.append((i, oo))
+            continue
         chosen = opts if tier == "thorough" and i < 2000 else \
             [opts[(i * 7 + k * 13) % len(opts)] for k in range(4 if tier == "quick" else 12)]
         # always include the most aggressive merging modes
@@ -93,6 +191,8 @@ def run(tier, seed, replay=None):
                 jobs.append({"id": len(jobs), "src": render(lst), "opts": oo,
                              "want": ["uses", "out"]})
                 meta.append((i, oo))
+    n_ut = ut_agree = 0
+    ut_drift = []
     with Scratch("c10") as sc:
         results = ucore.run_jobs(jobs, sc)
         recs, rmeta = [], []
@@ -104,12 +204,24 @@ def run(tier, seed, replay=None):
             recs.append({"inp": o["uses_in"], "out": o["uses_out"] or [],
                          "parsed": o.get("uses_out") is not None, "edition": oo["edition"]})
             rmeta.append((i, oo, j, o))
+            if lists[i][0] == "UT":
+                n_ut += 1
+                if not lists[i][1]["wf"] and o.get("uses_out") is None:
+                    ut_agree += 1     # the transcription predicts a tree that is not Rust, and it is not
+                elif real_leaves(o["uses_out"] or []) != ut_leaves(lists[i][1]["out"]):
+                    v.drift += 1
+                    ut_drift.append(j["src"])
+                else:
+                    ut_agree += 1
         fails, ostates = core.eval_report("ImportsObs", "ImportsObs.cfg", recs, scratch=sc,
                                           chunk=4000)
     for idx, f in fails:
         i, oo, j, o = rmeta[idx]
         gran = oo["imports_granularity"]
         lst = lists[i]
+        if lst[0] == "UT":
+            lst = [("", "pub " if it["vis"] == "pub" else "", ut_path(it["path"]))
+                   for it in lst[1]["items"]]
         decls = [x for x in lst if x != "ITEM"]
         alias = any(" as " in t for (_, _, t) in decls)
         # the same tree text declared twice with different visibility or attributes
@@ -139,7 +251,10 @@ def run(tier, seed, replay=None):
                    "non-import item, each under several (granularity, grouping, reorder, edition, "
                    "style edition, width) vectors; distinct_nontrivial = distinct (source, options) "
                    "whose output differs from the input" % len(TREES),
-           "lists": len(lists), "skipped_runs_with_errors": skipped, "exhaustive": False}
+           "lists": len(lists), "skipped_runs_with_errors": skipped, "exhaustive": False,
+           "model_states": ut_states, "model_scenarios_replayed": n_ut,
+           "traces_replayed_into_impl": n_ut, "replay_equal_to_model": ut_agree,
+           "model_drift_examples": ut_drift[:5]}
     return v.finish("exploration", cov, [
         "rustc_parse + pprust give the use trees, visibilities and attributes of input and output",
         "runs are maximal sequences of consecutive use items (blank lines do not split runs)",
